@@ -47,12 +47,24 @@ var Types = []TypeInfo{
 	{"uuid", "uuid", "NUMERIC", false},
 }
 
+// ExtraTypes are type spellings that models may use but that the generators never pick (so adding one
+// does not change any generated workload): ANY — the only flexible type of STRICT tables; in an
+// ordinary table its affinity is NUMERIC by SQLite's rule.
+var ExtraTypes = []TypeInfo{
+	{"any", `sql("any")`, "NUMERIC", true},
+}
+
 // Affinities lists the five affinity classes.
 var Affinities = []string{"INTEGER", "REAL", "TEXT", "BLOB", "NUMERIC"}
 
 // LookupType finds a catalogue type by its SQL spelling.
 func LookupType(sql string) (TypeInfo, bool) {
 	for _, t := range Types {
+		if t.SQL == sql {
+			return t, true
+		}
+	}
+	for _, t := range ExtraTypes {
 		if t.SQL == sql {
 			return t, true
 		}
